@@ -553,9 +553,9 @@ func judgeValidation(r *Run, j *Judged, c *cls, by map[int]*OResp) {
 	e := c.e
 	// the caller's request object is never modified
 	j.count("C02", "client-request-mutated")
-	if e.Req.Method != e.ReqAfter.Method || e.Req.URL != e.ReqAfter.URL || e.Req.Host != e.ReqAfter.Host ||
+	if e.Req.Method != e.ReqAfter.Method || e.Req.RawMethod != e.ReqAfter.RawMethod || e.Req.URL != e.ReqAfter.URL || e.Req.Host != e.ReqAfter.Host ||
 		!reflect.DeepEqual(e.Req.Header, e.ReqAfter.Header) || e.Req.Ctx != e.ReqAfter.Ctx {
-		j.fail("C02", "client-request-mutated", e, "", "the client's *http.Request changed during RoundTrip: header before=%v after=%v", e.Req.Header, e.ReqAfter.Header)
+		j.fail("C02", "client-request-mutated", e, "", "the client's *http.Request changed during RoundTrip: method before=%q after=%q header before=%v after=%v", e.Req.RawMethod, e.ReqAfter.RawMethod, e.Req.Header, e.ReqAfter.Header)
 	}
 	// every conditional request built by the cache = client's request + stored validators
 	for _, u := range e.Calls {
